@@ -3,6 +3,7 @@ import EqsigVerif.Lemmas.Np
 import EqsigVerif.Lemmas.Cplx
 import EqsigVerif.Lemmas.Frequency
 import EqsigVerif.Lemmas.Smooth
+import EqsigVerif.Lemmas.KoWindow
 /-!
 # C07 — Konno–Ohmachi smoothing is a normalised non-negative log-frequency window
 
@@ -186,5 +187,80 @@ theorem sig_array_indexes_range_spec (smooth : List α) (ratio m : α) (hm : Np.
 example : sigArrayIndexesRange [1, 30, 4, 45, 2, (3 : ℚ)] 15 = .ok (1, 3) := by decide +kernel
 
 end
+
+/-! ## C07.c — the window over `ℝ` (`Real.sin`, `log10R x = Real.log x / Real.log 10`) -/
+section Window
+
+/-- **C07.c** the model's raw window IS `(sin x / x)^4` (breaks if the exponent or the argument changes),
+and it lies in `[0, 1]` for every real `x`. -/
+theorem ko_window (x : ℝ) :
+    koRaw Real.sin x = (Real.sin x / x) ^ 4 ∧ 0 ≤ koRaw Real.sin x ∧ koRaw Real.sin x ≤ 1 :=
+  ⟨koRaw_eq x, koRaw_nonneg x, koRaw_le_one x⟩
+
+/-- **C07.c** the window argument `band·log10(f/fc)` vanishes exactly when `f = fc` (positive frequencies,
+`band ≠ 0`); there the `where` branch yields the value 1, so the model never uses `sin 0 / 0`; the
+window with the replacement lies in `[0, 1]` everywhere. -/
+theorem ko_window_centre (band f fc : ℝ) (hb : band ≠ 0) (hf : 0 < f) (hfc : 0 < fc) :
+    (koArg log10R band f fc = 0 ↔ f = fc) ∧
+    koWindow Real.sin log10R band fc fc = 1 ∧
+    0 ≤ koWindow Real.sin log10R band f fc ∧ koWindow Real.sin log10R band f fc ≤ 1 :=
+  ⟨koArg_eq_zero_iff band f fc hb hf hfc, koWindow_self band fc (ne_of_gt hfc),
+    koWindow_nonneg band f fc, koWindow_le_one band f fc⟩
+
+example : koWindow Real.sin log10R 40 (5 / 2) (5 / 2) = 1 := koWindow_self 40 (5 / 2) (by norm_num)
+
+/-- **C07.c** the replaced raw matrix of the model (`np.where(amp_array == 0, 1, wb_vals)`) is the matrix
+of window values; every entry is `≥ 0`; the column of a target frequency that lies on the Fourier grid
+sums to `≥ 1 > 0` (so its normalisation is finite). -/
+theorem ko_column (band : ℝ) (fs sm : List ℝ) :
+    List.zipWith whereCol (koAmp log10R band fs sm)
+        ((koAmp log10R band fs sm).map (fun col => col.map (koRaw Real.sin)))
+      = sm.map (fun fc => fs.map (fun f => koWindow Real.sin log10R band f fc)) ∧
+    (∀ fc ∈ sm, ∀ w ∈ fs.map (fun f => koWindow Real.sin log10R band f fc), 0 ≤ w) ∧
+    (∀ fc ∈ sm, fc ≠ 0 → fc ∈ fs →
+      1 ≤ sumL (fs.map (fun f => koWindow Real.sin log10R band f fc))) :=
+  ⟨zipWith_whereCol_koAmp band fs sm, fun fc _ => ko_col_nonneg band fc fs,
+    fun fc _ h0 hmem => ko_col_sum_ge_one band fc fs h0 hmem⟩
+
+/-- **C07.c** for an off-grid target, positivity of the column sum needs one non-vanishing window value
+(`band·log10(fᵢ/fc) ∉ π·(ℤ∖{0})` for some `i`; cannot fail in binary64) — kept as the explicit hypothesis. -/
+theorem ko_column_sum_pos_of_exists (band fc : ℝ) (fs : List ℝ)
+    (h : ∃ f ∈ fs, koWindow Real.sin log10R band f fc ≠ 0) :
+    0 < sumL (fs.map (fun f => koWindow Real.sin log10R band f fc)) := by
+  obtain ⟨f, hf, hne⟩ := h
+  have hpos : 0 < koWindow Real.sin log10R band f fc :=
+    lt_of_le_of_ne (koWindow_nonneg band f fc) (Ne.symm hne)
+  exact lt_of_lt_of_le hpos
+    (le_sumL_of_mem _ (ko_col_nonneg band fc fs) _ (List.mem_map.mpr ⟨f, hf, rfl⟩))
+
+/-- **C07.b + C07.c end to end** `calc_smooth_fa_spectrum` with the real Konno–Ohmachi window, every
+target frequency on the (non-zero) Fourier grid — in particular the default `smooth_fa_frequencies=None`:
+the call succeeds, returns one finite value per target, and every value lies between any lower and
+any upper bound of the non-zero-frequency amplitudes `|A'|`. -/
+theorem ko_smooth_on_grid_is_mean (faFreqs A fs A' : List ℝ) (smooth? : Option (List ℝ)) (band : ℝ)
+    (h1 : dropZeroBin faFreqs A = .ok (fs, A')) (h2 : A'.length = fs.length)
+    (hgrid : ∀ fc ∈ smooth?.getD fs, fc ≠ 0 ∧ fc ∈ fs) :
+    ∃ out, calcSmoothFaSpectrum Real.sin log10R faFreqs A smooth? band = .ok out ∧
+      out.length = (smooth?.getD fs).length ∧
+      ∀ s ∈ out, (∀ lo, (∀ a ∈ A', lo ≤ |a|) → lo ≤ s) ∧ (∀ hi, (∀ a ∈ A', |a| ≤ hi) → s ≤ hi) := by
+  rw [calcSmoothFaSpectrum_eq faFreqs A fs A' smooth? band h1]
+  have hW : ∀ col ∈ List.zipWith whereCol (koAmp log10R band fs (smooth?.getD fs))
+      ((koAmp log10R band fs (smooth?.getD fs)).map (fun col => col.map (koRaw Real.sin))),
+      col.length = A'.length ∧ (∀ w ∈ col, 0 ≤ w) ∧ 0 < sumL col := by
+    rw [zipWith_whereCol_koAmp]
+    intro col hcol
+    obtain ⟨fc, hfc, rfl⟩ := List.mem_map.mp hcol
+    obtain ⟨h0, hmem⟩ := hgrid fc hfc
+    exact ⟨by simp [h2], ko_col_nonneg band fc fs,
+      lt_of_lt_of_le zero_lt_one (ko_col_sum_ge_one band fc fs h0 hmem)⟩
+  obtain ⟨out, hout, hform, hb⟩ := smooth_is_mean faFreqs A fs A' _ _ h1 h2 hW
+  refine ⟨out, hout, ?_, hb⟩
+  rw [hform, zipWith_whereCol_koAmp]
+  simp
+
+example : dropZeroBin [0, 1, 2, 4] [5, -2, 4, (1 : ℝ)] = .ok ([1, 2, 4], [-2, 4, 1]) := by
+  simp [dropZeroBin]
+
+end Window
 
 end EqsigVerif.Props.C07
